@@ -143,11 +143,25 @@ def generate(run_seed, index, tier):
             if o['op'] == 'call':
                 new.append(_noise_op(r, calls[o['id']]['seed'], use_clock))
         ops = new
+    thr_r = st['threads']  # its own stream: everything above is unchanged by this branch
+    if (not strat) and (not heavy) and thr_r.random() < 0.15:
+        # two caller threads evaluate seeded calls at the same time (DESIGN §8.8): every hand-over is chosen here
+        for _ in range(thr_r.randint(1, 2)):
+            if thr_r.random() < 0.5:
+                ops.append({'op': 'wipe'})
+            ops.append({'op': 'conc', 'ids': [thr_r.randrange(len(calls)), thr_r.randrange(len(calls))],
+                        'quanta': [thr_r.choice([1, 2, 3, 5, 8, 13, 21, 34]) for _ in range(thr_r.randint(1, 12) if thr_r.random() < 0.7 else thr_r.randint(13, 60))]})
     return {'engine': PROPERTY, 'config': {'lru': lru, 'entropy': cfg_r.getrandbits(32), 'clock_script_seed': cfg_r.getrandbits(16)}, 'calls': calls, 'ops': ops}
 
 
 def simplify(plan):
     ops = plan['ops']
+    for i, o in enumerate(ops):
+        if o['op'] == 'conc' and len(o['quanta']) > 1:
+            for j in range(len(o['quanta'])):
+                p = copy.deepcopy(plan)
+                del p['ops'][i]['quanta'][j]
+                yield p
     for i, o in enumerate(ops):
         if 'fault' in o:
             p = copy.deepcopy(plan)
@@ -446,6 +460,24 @@ class Sim:
             self.bump('unrelated_constructions')
             self.mark_dirty()
             self.shape.append('o')
+        elif kind == 'conc':
+            ids = [k for k in op['ids'] if k < len(self.plan['calls'])]
+            specs = [self.plan['calls'][k] for k in ids]
+            if len(ids) != 2 or any(reg.R[sp['fn']]['heavy'] or reg.R[sp['fn']]['solver'] or '[' in sp['fn'] for sp in specs):
+                return  # heavy specs re-use harness-owned model objects, bracketed variants install process-wide seams: one thread only
+            il = faults.Interleaver()
+            res = il.run([(lambda sp=sp: outcome_of(self.nq, sp, True, None)) for sp in specs], list(op['quanta']))
+            self.bump('fault.thread_preemption.configured', len(op['quanta']))
+            self.bump('fault.thread_preemption.fired', il.switches)
+            self.bump('conc_ops')
+            self.stats['max.points_in_one_conc'] = max(self.stats.get('max.points_in_one_conc', 0), il.points)
+            self.log.add('conc', ids, il.points, il.switches)
+            self.mark_dirty()
+            for k, sp, (st_, val) in zip(ids, specs, res):
+                if st_ == 'exc':
+                    raise Violation('unexpected_exception', sp['fn'], f'{type(val).__name__}: {val} args={sp["args"]} seed={sp["seed"]} (while another caller thread was parked inside numqi)')
+                self.record(k, sp, val, 'on a caller thread interleaved with another seeded call', world, None)
+            self.shape.append('T')
         elif kind == 'pristine':
             k = op['id']
             if k >= len(self.plan['calls']) or k not in self.ref:
